@@ -56,14 +56,20 @@ SWAPS = [(' <= ', ' < '), (' >= ', ' > '), (' < ', ' <= '), (' > ', ' >= '), (' 
 def mutants_of(rel, i, l):
     out = []
     code = l.split('//')[0]
+    if re.search(r'lzma_(info|debug|trace)!', code) or (code.strip().startswith('"') and '{' in code):
+        return out                      # logging and message text: not behaviour
+    def in_string(pos):
+        return code[:pos].count('"') % 2 == 1
     generic = bool(re.search(r'\bfn \b|\bimpl\b|\bstruct\b|\btrait\b|->|::<|\bwhere\b|<[A-Z]\w*[:,>]|&\'|dyn ', code))
     for a, b in SWAPS:
         if a in (' < ', ' > ') and generic: continue
         if a == 'Some(' : continue
         for m in re.finditer(re.escape(a), code):
+            if in_string(m.start()): continue
             out.append((rel, i, 'swap %r->%r@%d' % (a.strip(), b.strip(), m.start()), l[:m.start()] + b + l[m.end():]))
     for m in re.finditer(r'(?<![\w.])(0x[0-9A-Fa-f_]+|\d[\d_]*)(?![\w.]*\")', code):
         tok = m.group(1)
+        if in_string(m.start()): continue
         if re.match(r'.*\b(u8|u16|u32|u64|usize|i32)\b', tok): continue
         try: v = int(tok.replace('_', ''), 0)
         except ValueError: continue
